@@ -3,6 +3,15 @@ import MosnVerif.Lemmas.Downstream.Tails
 namespace MosnVerif.Model.Downstream
 open MosnVerif.Gen.ProxyPhase MosnVerif.Gen.ProxyReason MosnVerif.Gen.ProxyRetry
 
+/-- the regenerated retry gate of `onUpstreamReset` (Gen.ProxyReset) on the machine state: a reset is only retried when
+it is not the global timeout, NO response has started going downstream, and a retry state exists.  (This lemma — and
+with it every theorem below — stops checking when the regenerated condition tests anything weaker.) -/
+theorem retryGate_eq (c : Cfg) (s : S) (r : Reason) :
+    Gen.ProxyReset.retryGate r (resetFlags c s) = (decide (r ≠ .UpstreamGlobalTimeout) && !s.respStarted && s.rs.isSome) := rfl
+
+/-- the regenerated second condition of `onUpstreamReset`: reset the client iff a response has started, else answer it -/
+theorem resetNotReply_eq (c : Cfg) (s : S) : Gen.ProxyReset.resetNotReply (resetFlags c s) = s.respStarted := rfl
+
 /-- what `finishPhase` does with the outcome of `processError` -/
 def finishOf (r : S × Option Phase) : S :=
   match r with
@@ -39,7 +48,7 @@ theorem finish_branch (c : Cfg) (ar aq : Nat) (s : S) (r : Reason) (b : Base c a
     (hrst : s.respStarted = false) (hphase : s.phase ≠ .UpFilter) :
     Inv c ar aq (finishOf (peTail c (onUpstreamResetFinish c s r) true)) := by
   unfold onUpstreamResetFinish
-  simp only [cleanUp_respStarted, hrst, Bool.false_eq_true, if_false]
+  simp only [resetNotReply_eq, cleanUp_respStarted, hrst, Bool.false_eq_true, if_false]
   have hcu := cleanUp_facts c s
   -- the state carrying the pending error reply
   generalize hh : sendHijack { orFlag (cleanUp c s) (reasonToFlag r) with upReset := false } (reasonToCode r) false = h
@@ -112,7 +121,7 @@ theorem upreset_branch (c : Cfg) (ar aq : Nat) (s : S) (b : Base c ar aq s) (hru
     (hdirexp : s.direct = true → s.globalExpired = true) :
     Inv c ar aq (finishOf (peTail c (onUpstreamReset c s) true)) := by
   unfold onUpstreamReset
-  simp only [hrst, hrs, Bool.not_false, Bool.and_true]
+  simp only [retryGate_eq, hrst, hrs, Bool.not_false, Bool.and_true]
   split
   rotate_left
   · exact finish_branch c ar aq s _ b hrun hcl how h3 h6 hpd hsr hpass hup hlc hrst hphase
